@@ -5,6 +5,8 @@ import json, subprocess
 CLAIMS = {
  "C01": ("sibling-schema agreement over typed AST (fragger/decorate/restore), entry-point flag and FileSet dataflow",
          "Exhaustive static comparison of the three converters for all 54 node types plus entry-point rules: necessary conditions of byte-exact round trip, decided for all inputs; byte equality itself goes through go/printer and is not decided.", "4 C01"),
+ "C02": ("locality analysis of every render operand + restorer field-write inventory + decorate/Clone carriage rules + clause-kind symmetry of the attachment conditions",
+         "Decides that whatever is attached to a node travels with it (rendering reads only the node's own storage; Clone and decorate carry it); which node a comment is attached to is decided by positional heuristics in link() and is NOT decided.", "4 C02"),
  "C03": ("field-completeness and sibling agreement over go/types struct facts + typed AST",
          "Decides that no token/child/value field of any go/ast node type is dropped in either direction and that no converter assertion can fail; does not decide text equality after go/printer.", "4 C03"),
  "C04": ("render-site analysis of the generated restorer against go/types Decs structs, fragger order and listing/accessor",
@@ -13,6 +15,12 @@ CLAIMS = {
          "Decides the restorer's half of the non-additive spacing rule (number of line breaks handed to go/printer per SpaceType and fresh-line state); the visible max(After,Before) outcome is produced by go/printer and is not decided.", "4 C05"),
  "C06": ("per-field completeness + alias-freedom analysis of Clone against restore's reads and go/types struct facts",
          "Decides Clone completeness/alias-freedom and duplicate rejection structurally for every node type.", "4 C06"),
+ "C07": ("structural rules on updateImports/restoreIdent: discovery scan, deterministic ordering (map-range classification, comparator totality), conflict-set/chosen-name agreement, alias flow, single writer/reader of the name table, selector layout",
+         "Necessary conditions of correct import management decided for all configurations; exactness of the import set, block layout preservation and byte output are not decided.", "4 C07"),
+ "C08": ("CFG rule on updateImports (mutation-free path, no store before an error return) + constant propagation through mergeDecorations against the restorer's spacing state machine + slot-order rule on decorateSelectorExpr + selector layout agreement",
+         "Necessary conditions of transparency decided for all inputs; byte equality and resolver accuracy are not decided.", "4 C08"),
+ "C09": ("role-filter exhaustiveness (avoid table vs static field types in both converters), argument/anchoring rules on resolvePath/stripVendor, error discipline, presence of the resolvers' classification clauses",
+         "Decides the structural part of 'paths exactly on remote references' (which positions may ever be resolved, vendor stripping on element boundaries, errors surfacing); the classification of an identifier is a runtime fact about go/types objects and is not decided. The clause-presence rule is a frozen-fragment rule and fires on rewrites of the two small resolvers.", "4 C09"),
  "C11": ("allocation/registration ordering analysis of both converters (event order, non-nil keys, memo lookup)",
          "Decides the node-map laws for all inputs by induction over the converter cases.", "4 C11"),
  "C12": ("cursor/position-store/line-table rules over the typed AST of the restorer (hand-written and generated), statement-order rule on RestoreFile, declaration-order rule against go/ast structs",
@@ -21,6 +29,8 @@ CLAIMS = {
          "Decides the whole statement by structural induction over Walk's cases.", "4 C13"),
  "C14": ("child-table agreement apply/Walk/struct + normal-form equality of the fork with astutil v0.1.12",
          "Same code as upstream modulo the node table, which is checked semantically; a behaviour-preserving rewrite of a forked function is reported (stated limitation).", "4 C14"),
+ "C15": ("nil-guard dominance in ParseFile, optional-child guards taken from go/ast.Walk, assertion and coverage rules, map-allocation rule, classified inventory of explicit panic sites",
+         "Decides the type- and nil-related panic sources for all inputs; the positional 'no decoration found' panics in link() are not decided (new unclassified panic sites are reported as undecided).", "4 C15"),
  "C16": ("lockset analysis over mutex-guarded fields, global-write and goroutine/channel scan, map-iteration order classification, store classification by declaring package",
          "Decides race-freedom of dst's own shared state (resolver cache, package-level tables) and absence of map-order dependence in the in-scope packages; the standard library's internals are trusted.", "4 C16"),
  "C17": ("error-discipline rule over all error-returning call sites + store classification + CFG reachability in updateImports (no store before an error return)",
@@ -36,7 +46,7 @@ CLAIMS = {
 NOT_APPLICABLE = {
  "C10": "meaning preservation of moved code needs a type checker run over output programs; no static rule over dst's source bounds it (DESIGN.md 4, C10)",
 }
-PENDING = ["C02", "C07", "C08", "C09", "C15"]
+PENDING = []
 
 props = [json.loads(l)["id"] for l in open("/verif/properties.jsonl")]
 checks = []
